@@ -473,6 +473,14 @@ theorem single_eq_model (nanv : γ) (ncf nsf : Nat) (yt yp : List Rat) (m : Metr
   funext idx
   exact metricFn_own yt yp [m] hok m (by simp) idx
 
+/-- the public accessors hand out exactly the documented pandas types (table in the docstring of
+    `MetricFrame.overall`), for the `_extract_result` / `_populate_results` lifted from the source -/
+theorem accessor_types (bare hasControl : Bool) :
+    byGroupType bare hasControl = (if bare then .series else .dataFrame) ∧
+    overallType bare hasControl =
+      (if bare then (if hasControl then .series else .scalar) else (if hasControl then .dataFrame else .series)) := by
+  cases bare <;> cases hasControl <;> exact ⟨rfl, rfl⟩
+
 /-- the metric used in the witness: the sum of its (single) keyword array -/
 def sumKw : List (List Rat) → List (String × List Rat) → Rat := fun _ kw => ((kw.map (·.2)).flatten).sum
 
